@@ -82,8 +82,20 @@ def run_e2(oid: str, clause: str, fn: Callable[[], Any], *, functions: Sequence[
     model's concrete values and return (violated?, detail, finding-site-or-None)."""
     ob = Obligation(oid=oid, clause=clause, engine="E2 symreal", functions=list(functions), bounds=bounds)
     t0 = time.time()
+    cache: Dict[str, Any] = {}
+
+    def _validate(model):
+        if replay is None:
+            return True
+        key = json.dumps(model, sort_keys=True, default=repr)
+        try:
+            cache[key] = replay(model)
+            return bool(cache[key][0])
+        except Exception as e:
+            cache[key] = (None, f"replay crashed: {type(e).__name__}: {e}", None)
+            return True
     try:
-        out = SR.explore(fn, max_paths=max_paths, timeout_ms=timeout_ms, budget_s=budget_s)
+        out = SR.explore(fn, max_paths=max_paths, timeout_ms=timeout_ms, budget_s=budget_s, validate=_validate)
     except SR.Unsupported as e:
         ob.detail = f"Unsupported: {e}"
         ob.wall_s = time.time() - t0
@@ -105,10 +117,14 @@ def run_e2(oid: str, clause: str, fn: Callable[[], Any], *, functions: Sequence[
         ob.cex = {"model": out.model}
         ob.detail = out.detail
         if replay is not None:
-            try:
-                violated, detail, site = replay(out.model)
-            except Exception as e:  # replay harness failure
-                violated, detail, site = None, f"replay crashed: {type(e).__name__}: {e}", None
+            key = json.dumps(out.model, sort_keys=True, default=repr)
+            if key in cache:
+                violated, detail, site = cache[key]
+            else:
+                try:
+                    violated, detail, site = replay(out.model)
+                except Exception as e:  # replay harness failure
+                    violated, detail, site = None, f"replay crashed: {type(e).__name__}: {e}", None
             ob.replayed = bool(violated) if violated is not None else False
             ob.detail = detail
             ob.finding = site
@@ -118,15 +134,60 @@ def run_e2(oid: str, clause: str, fn: Callable[[], Any], *, functions: Sequence[
     return ob
 
 
+_SERVER = None
+_SERVER_SRC = r"""
+import sys, json
+sys.path.insert(0, %r)
+_mains = {}
+for line in sys.stdin:
+    req = json.loads(line)
+    try:
+        key = req["key"]
+        if key not in _mains:
+            ns = {}
+            exec(req["code"], ns)
+            _mains[key] = ns["main"]
+        out = {"ok": True, "result": _mains[key](req["payload"])}
+    except BaseException as e:
+        import traceback
+        out = {"ok": False, "error": type(e).__name__ + ": " + str(e) + " | " + traceback.format_exc()[-600:]}
+    sys.stdout.write("@@" + json.dumps(out, default=repr) + "\n")
+    sys.stdout.flush()
+""" % ROOT
+
+
+def _server():
+    """one long-lived interpreter per checking process that never patches anything: the unpatched library, real tables,
+    real regex, binary64 floats.  (A fresh interpreter per replay costs ~0.45 s; thousands of replays per run.)"""
+    global _SERVER
+    if _SERVER is None or _SERVER.poll() is not None:
+        _SERVER = subprocess.Popen([PY, "-W", "ignore", "-c", _SERVER_SRC], stdin=subprocess.PIPE, stdout=subprocess.PIPE,
+                                   stderr=subprocess.DEVNULL, text=True, bufsize=1)
+    return _SERVER
+
+
 def native_call(code: str, payload: dict, timeout: int = 120) -> dict:
-    """Run `code` (defines main(payload)->dict) in a fresh interpreter against the unpatched library."""
-    prog = ("import sys, json\n"
-            f"sys.path.insert(0, {ROOT!r})\n"
-            + code +
-            "\nprint('@@' + json.dumps(main(json.loads(sys.stdin.read())), default=repr))\n")
-    p = subprocess.run([PY, "-W", "ignore", "-c", prog], input=json.dumps(payload), capture_output=True, text=True,
-                       timeout=timeout)
-    for line in p.stdout.splitlines():
-        if line.startswith("@@"):
-            return json.loads(line[2:])
-    raise RuntimeError("native call failed: " + p.stderr[-500:])
+    """Run `code` (defines main(payload)->dict) against the unpatched library in the replay interpreter."""
+    import hashlib
+    global _SERVER
+    srv = _server()
+    req = {"key": hashlib.sha1(code.encode()).hexdigest(), "code": code, "payload": payload}
+    try:
+        srv.stdin.write(json.dumps(req, default=repr) + "\n")
+        srv.stdin.flush()
+        while True:
+            line = srv.stdout.readline()
+            if not line:
+                raise RuntimeError("replay interpreter died")
+            if line.startswith("@@"):
+                out = json.loads(line[2:])
+                break
+    except Exception:
+        try:
+            srv.kill()
+        finally:
+            _SERVER = None
+        raise
+    if not out["ok"]:
+        raise RuntimeError("native call failed: " + out["error"])
+    return out["result"]
